@@ -688,7 +688,9 @@ impl<'a> Engine<'a> {
                   out.nontrivial(case_key(88));
                   if fired.as_ref() != Some(&a.mapping) {
                     // F5: the single trigger slot is shared; re-pressing it un-hides a modifier absorbed for another trigger
-                    let unhides_other = pre.absorbing_trigger == Some(*k) && fired.as_ref().map(|f| armed_now.iter().any(|b| b.m != a.m && b.t != *k && f.from.contains(&b.m))).unwrap_or(false);
+                    // (the pressed key sits in the trigger slot, and the mapping that fired instead requires a key of the mapper's
+                    // absorbed list other than M, i.e. one absorbed by another mapping)
+                    let unhides_other = pre.absorbing_trigger == Some(*k) && fired.as_ref().map(|f| pre.mapped_absorbed_keys.iter().any(|x| *x != a.m && f.from.contains(x))).unwrap_or(false);
                     let sig = if unhides_other { "C08.3:absorbing-trigger-slot-overwritten" } else { "C08.3:same-trigger-does-not-refire" };
                     if std::env::var("TMVERIF_DEBUG").is_ok() {
                       eprintln!("DEBUG c08.3 sig={} pre.trigger={:?} k={:?} armed_now={:?} hist_len={} in_before={:?} pre={:?}", sig, pre.absorbing_trigger, k,
